@@ -110,12 +110,16 @@ func cacheKey(req *http.Request) string {
 	hash := sha256.New()
 
 	hash.Write(stringx.ToBytes("RFC 7234"))
+	hash.Write([]byte{0})
 	hash.Write(stringx.ToBytes(req.URL.String()))
+	hash.Write([]byte{0})
 	hash.Write(stringx.ToBytes(req.Method))
+	hash.Write([]byte{0})
 
 	value := req.Header.Get("Authorization")
 	if len(value) != 0 {
 		hash.Write(stringx.ToBytes(strings.TrimSpace(value)))
+		hash.Write([]byte{0})
 	}
 
 	return hex.EncodeToString(hash.Sum(nil))
